@@ -3,6 +3,7 @@
 use crate::eng_codec::{ReadEngine, WriteEngine};
 use crate::eng_hpack::{self, DecEngine, EncEngine, SplitEngine};
 use crate::eng_pair::PairEngine;
+use crate::eng_raw::CatalogueServerEngine;
 use crate::sim_pair::Focus;
 use crate::runner::{self, drive, finish, Ctx, Engine, Report, RunStats, Tier};
 use serde_json::{json, Value};
@@ -103,6 +104,24 @@ pub fn run_check(id: &str, tier: Tier) -> i32 {
             }
             assumptions.push("the simulator's transport and executor honour the AsyncRead/AsyncWrite/Future contracts; the reference frame parser and HPACK decoder are correct".into());
         }
+        "C05" | "C17" | "C19" => {
+            parts.push(run_engine(&PairEngine { focus: Focus::Resets }, &ctx, scale(tier, 8_000, 300_000)));
+            if parts.iter().all(|p| p.failure.is_none()) {
+                parts.push(run_engine(&PairEngine { focus: Focus::Coop }, &ctx, scale(tier, 4_000, 200_000)));
+            }
+            assumptions.push("the simulator's transport and executor honour the AsyncRead/AsyncWrite/Future contracts; the reference frame parser is correct".into());
+        }
+        "C07" => {
+            parts.push(run_engine(&PairEngine { focus: Focus::Faults }, &ctx, scale(tier, 10_000, 400_000)));
+            assumptions.push("every connection is driven by its own task which drops the Connection when its future completes".into());
+        }
+        "C08" => {
+            parts.push(run_engine(&CatalogueServerEngine, &ctx, scale(tier, 12_000, 400_000)));
+        }
+        "C09" => {
+            parts.push(run_engine(&CatalogueServerEngine, &ctx, scale(tier, 12_000, 400_000)));
+            assumptions.push("the catalogue rows (harness/src/eng_raw.rs) transcribe RFC 9113 correctly; only the class of reaction is demanded, never a specific code".into());
+        }
         "C12" => {
             parts.push(run_engine(&WriteEngine, &ctx, scale(tier, 40_000, 1_000_000)));
             if parts.iter().all(|p| p.failure.is_none()) {
@@ -125,6 +144,11 @@ pub fn replay(path: &str) -> i32 {
     let engine = v["engine"].as_str().unwrap_or("");
     let property = v["property"].as_str().unwrap_or("").to_string();
     let case = &v["case"];
+    if std::env::var("VERIF_DUMP").is_ok() && engine.starts_with("raw-") {
+        if let Ok(c) = serde_json::from_value::<crate::eng_raw::RawCase>(case.clone()) {
+            crate::eng_raw::dump_raw(&c);
+        }
+    }
     if std::env::var("VERIF_DUMP").is_ok() && engine.starts_with("pair-") {
         if let Ok(c) = serde_json::from_value::<crate::sim_pair::PairCase>(case.clone()) {
             crate::eng_pair::dump_pair(&c);
@@ -141,6 +165,7 @@ pub fn replay(path: &str) -> i32 {
         "hpack-enc" => runner::replay_case(&EncEngine { big: false }, case),
         "hpack-enc-big" => runner::replay_case(&EncEngine { big: true }, case),
         "codec-write" => runner::replay_case(&WriteEngine, case),
+        "raw-catalogue-server" => runner::replay_case(&CatalogueServerEngine, case),
         "pair-coop" => runner::replay_case(&PairEngine { focus: Focus::Coop }, case),
         "pair-resets" => runner::replay_case(&PairEngine { focus: Focus::Resets }, case),
         "pair-faults" => runner::replay_case(&PairEngine { focus: Focus::Faults }, case),
